@@ -3,6 +3,7 @@ import DaskModel.Model.Cumulative
 import DaskModel.Model.Overlap
 import DaskModel.Model.Frame
 import DaskModel.Model.TreeReduce
+import DaskModel.Model.RelExpr
 open Dask
 
 /-! Line-protocol handlers of group dfrows (C36 C37 C42 C43 C46). Cells: an integer or `none`. -/
@@ -309,6 +310,72 @@ def hReduceSpec : Handler := handler fun args =>
     | _ => none
   | _ => none
 
+/-! ### C43 / C42 -/
+open Dask.RelExpr in
+def toBinOp? : String → Option BinOp
+  | "add" => some .add | "sub" => some .sub | "mul" => some .mul
+  | "lt" => some .lt | "le" => some .le | "gt" => some .gt | "ge" => some .ge
+  | "eq" => some .eq | "ne" => some .ne | "and" => some .and | "or" => some .or
+  | _ => none
+
+def toStrs? (e : SExp) : Option (List String) := do
+  (← e.toList?).mapM (fun x => match x with | .str s => some s | _ => none)
+
+open Dask.RelExpr in
+partial def toE? : SExp → Option E
+  | .sym "src" => some .src
+  | .list [.sym "proj", cols, f] => do pure (.proj (← toStrs? cols) (← toE? f))
+  | .list [.sym "filter", f, p] => do pure (.filter (← toE? f) (← toE? p))
+  | .list [.sym "assign", f, .str n, v] => do pure (.assign (← toE? f) n (← toE? v))
+  | .list [.sym "col", f, .str n] => do pure (.col (← toE? f) n)
+  | .list [.sym "lit", .int k] => some (.lit k)
+  | .list [.sym "bin", .sym op, a, b] => do pure (.bin (← toBinOp? op) (← toE? a) (← toE? b))
+  | .list [.sym "not", a] => do pure (.not (← toE? a))
+  | _ => none
+
+open Dask.RelExpr in
+def ofVal : Option Val → SExp
+  | none => .list [.sym "illformed"]
+  | some (.frame cols rows) =>
+    .list [.sym "frame", .list (cols.map .str), .list (rows.map (fun (i, r) => .list (.int i :: r.map ofCell)))]
+  | some (.series rows) => .list [.sym "series", .list (rows.map (fun (i, c) => .list [.int i, ofCell c]))]
+  | some (.scalar c) => .list [.sym "scalar", ofCell c]
+
+/-- `(opteval (cols…) (rows…) e)` ↦ the denotation -/
+def hOptEval : Handler := handler fun args =>
+  match args with
+  | [cols, rows, e] => do
+    let s : Dask.RelExpr.Src := { cols := (← toStrs? cols), rows := (← toCellss? rows) }
+    pure (ofVal (Dask.RelExpr.den s (← toE? e)))
+  | _ => none
+
+/-- `(optcheck (cols…) (e0 e1 …))` ↦ one verdict per consecutive pair: `ok` | `rejected` | `nonf` -/
+def hOptCheck : Handler := handler fun args =>
+  match args with
+  | [cols, es] => do
+    let cols ← toStrs? cols
+    let es ← (← es.toList?).mapM toE?
+    let rec go : List Dask.RelExpr.E → List SExp
+      | a :: b :: rest =>
+        let v := match Dask.RelExpr.nf cols a, Dask.RelExpr.nf cols b with
+          | some x, some y => if x.equiv y then "ok" else "rejected"
+          | _, _ => "nonf"
+        .sym v :: go (b :: rest)
+      | _ => []
+    pure (.list (go es))
+  | _ => none
+
+/-- `(metaof (cols…) e)` ↦ `(frame (cols…))` | `series` | `scalar` | `none` -/
+def hMetaOf : Handler := handler fun args =>
+  match args with
+  | [cols, e] => do
+    match Dask.RelExpr.metaOf (← toStrs? cols) (← toE? e) with
+    | some (.frame cs) => pure (.list [.sym "frame", .list (cs.map .str)])
+    | some .series => pure (.sym "series")
+    | some .scalar => pure (.sym "scalar")
+    | none => pure (.sym "none")
+  | _ => none
+
 end DfRows
 
 open DfRows in
@@ -318,6 +385,7 @@ def table : List (String × Handler) := [
   ("overlap", hOverlap), ("winspec", hWinSpec), ("sideok", hSideOK), ("combined", hCombined),
   ("rollblockwise", hRollBlockwise), ("fillu", hFillU), ("fillspec", hFillSpec),
   ("pipe", hPipe), ("pipespec", hPipeSpec),
-  ("treeshape", hTreeShape), ("reduce", hReduce), ("reducespec", hReduceSpec)]
+  ("treeshape", hTreeShape), ("reduce", hReduce), ("reducespec", hReduceSpec),
+  ("opteval", hOptEval), ("optcheck", hOptCheck), ("metaof", hMetaOf)]
 
 def main : IO Unit := runDriver table
